@@ -628,7 +628,7 @@ template <class C> struct Interp {
                 C *data1 = nullptr;
                 LIB(cap1 = T::capacity(sa));
                 LIB(data1 = T::data(sa));
-                CHECK(cap1 == cap0 && data1 == data0, FCL("reserve.unchanged"),
+                CHECK(cap1 == cap0 && data1 == data0, "C16.string.reserve.unchanged",   // "quietly do nothing" is C16's wording
                       "%s: the allocation failed but capacity %zu -> %zu, data %s", desc, cap0, cap1,
                       data1 == data0 ? "same" : "moved");
                 CNT("class.reserve_failed_quietly");
@@ -743,6 +743,7 @@ void vf_run(const uint8_t *data, size_t len)
     g_fault_seen = false;
     Cursor cur(data, len);
     uint8_t h0 = cur.u8(), h1 = cur.u8(), h2 = cur.u8(), h3 = cur.u8();
+    static_assert(HDR == 4, "header: wide/objects, profile, base of S0, base of S1");
     if (h0 & 1) { Interp<wchar_t> in; in.run(cur, h0, h1, h2, h3); }
     else { Interp<char> in; in.run(cur, h0, h1, h2, h3); }
 }
